@@ -50,8 +50,10 @@ var (
 		"latency:{<1s,>1s}", `editor/"quoted"&more`,
 		// one bucket of a chart listed by itself, without braces
 		"tool/cache:hit"}
-	vocabStackExprs = []string{"crash/crash", "gopls/bug", "editor/opens"}
-	frames          = "\ngolang.org/x/tools/gopls.main:+3,+0x1a\n\".run:+10,+0x44\nruntime.main:+100,+0x2"
+	vocabStackExprs = []string{"crash/crash", "gopls/bug", "editor/opens",
+		// (stack names are literal: no bucket syntax)
+		"hang/{a,b}"}
+	frames = "\ngolang.org/x/tools/gopls.main:+3,+0x1a\n\".run:+10,+0x44\nruntime.main:+100,+0x2"
 )
 
 func versionsOf(prog string) []string {
@@ -74,7 +76,7 @@ func localNames(r *verifrt.Rand, canary string) map[string]uint64 {
 		// plain counters named like stacks and vice versa
 		"crash/crash", "gopls/bug",
 		"crash/crash" + frames, "gopls/bug" + frames, "editor/opens" + frames, "go/cmd/build" + frames, "crash/crash2" + frames, "crash" + frames,
-		"crash/crash\nother.pkg.f:+1,+0x1",
+		"crash/crash\nother.pkg.f:+1,+0x1", "hang/{a,b}" + frames, "hang/a" + frames, "hang/b" + frames, "hang/a", "hang/{a,b}",
 		// a stack counter whose own name looks like an abbreviated frame line
 		"\".crash/crash" + frames, "\".gopls/bug\nmain.f:+1,+0x1",
 		// private
@@ -99,6 +101,11 @@ func localNames(r *verifrt.Rand, canary string) map[string]uint64 {
 		n := verifrt.Pick(r, []string{"crash/crash", "editor/opens", "gopls/bug"})
 		m[n] = uint64(1 + r.Intn(1000))
 		m[n+frames] = uint64(1 + r.Intn(1000))
+	}
+	if r.Intn(6) == 0 {
+		// a stack counter whose name looks like a bucket list, and stacks named like its "buckets"
+		m["hang/{a,b}"+frames] = uint64(1 + r.Intn(1000))
+		m["hang/a"+frames] = uint64(1 + r.Intn(1000))
 	}
 	if r.Intn(8) == 0 {
 		// values at the top of the range: a counter that saturated in the file
@@ -277,7 +284,7 @@ func genSeqScenario(r *verifrt.Rand, i int) *seqScenario {
 		case 0:
 			f.Kind = "empty"
 		case 1:
-			f.Kind = verifrt.Pick(r, []string{"garbage", "truncated", "badend", "nometa", "short"})
+			f.Kind = verifrt.Pick(r, []string{"garbage", "truncated", "badend", "nometa", "short", "pagecut"})
 		}
 		f.setName(k)
 		s.Files = append(s.Files, f)
